@@ -17,9 +17,10 @@ import XlModel.Lemmas.CalcTotalStack
 import XlModel.Lemmas.CalcTotalFn
 import XlModel.CalcFrame
 import XlModel.Lemmas.CalcTotalSize
+import XlModel.Lemmas.CalcTotalArr
 
 namespace XlModel.Props.C09
-open XlModel XlModel.CalcTotal XlModel.Lemmas.CalcTotal XlModel.Lemmas.CalcTotalStack XlModel.Lemmas.CalcTotalFn XlModel.Lemmas.CalcTotalSize
+open XlModel XlModel.CalcTotal XlModel.Lemmas.CalcTotal XlModel.Lemmas.CalcTotalStack XlModel.Lemmas.CalcTotalFn XlModel.Lemmas.CalcTotalSize XlModel.Lemmas.CalcTotalArr
 
 /-! ## the facts the model is defined over -/
 
@@ -162,13 +163,49 @@ flags" (`SUM(({{1}}))`, `SUM((MAX({SUM({1})})))` panicked in `parseToken`; repos
 theorem fixed_nested_array_constant_witness :
     nested [] 0 witnessNestedArray = true ∧ evalTokens semU witnessNestedArray = .ok () := by decide
 
-/-- what is left of the "no array constant" hypothesis after fix 9c11688: in the model only a
-list no tokenizer emits — an ARRAYROW start without an enclosing ARRAY start, which the
-evaluator ignores while the checker `nested` counts it as an opening bracket — still panics.
-(Enumerating the model over all `nested` lists of ≤ 6 tokens over an 11-token alphabet finds
-no other panic; the array-aware version of `eval_no_panic_functions` is not proved.) -/
+/-- what the "no array constant" hypothesis of `eval_no_panic_functions` still excluded after fix
+9c11688: an ARRAYROW start without an enclosing ARRAY start — the evaluator ignores it while the
+plain bracket checker `nested` counts it as an opening bracket.  (Superseded by `eval_no_panic`,
+whose array-aware discipline `nestedA` rejects exactly this shape.) -/
 theorem finding_model_arrayrow_without_array_panics :
     nested [] 0 [fstart "SUM", ⟨"", .subexpr, .start⟩, fstart "ARRAYROW", fstop, ⟨"", .subexpr, .stop⟩] = true ∧
+    evalTokens semU [fstart "SUM", ⟨"", .subexpr, .start⟩, fstart "ARRAYROW", fstop, ⟨"", .subexpr, .stop⟩] = .panic := by
+  decide
+
+/-- **No panic — function calls, parentheses AND array constants; every value semantics, depth,
+arity.**  For every token list that satisfies the array-aware nesting discipline `nestedA`
+(what a tokenizer with a bracket stack guarantees: calls, parentheses and array constants
+properly nested, an ARRAYROW start only directly inside an array constant without an open row,
+no Argument directly inside a parenthesis of a function) and for EVERY operand semantics,
+reference resolver and function library, `evalInfixExp` returns a value or an error.  No
+"array constant" hypothesis is left.  Invariant (`Lemmas/CalcTotalArr.InvA`): as for
+`eval_no_panic_functions`, plus: the stack of open array constants (`St.arrs`, fix 9c11688)
+mirrors the array frames — depth = number of function frames below, open row as the frame
+says — so `array()` is determined by the innermost frame and every Function Stop is consumed
+by exactly the bracket the nesting says.  False before the repairs cc2477f, 07e33d8, 6963681,
+fecba5e, 9c11688 (each has a `fixed_*` witness that satisfies `nestedA`). -/
+theorem eval_no_panic {V : Type} (S : Sem V) (toks : List Tok) (hnest : nestedA [] [] toks = true) :
+    evalTokens S toks ≠ .panic :=
+  run_invA S toks {} [] [] invA_init hnest
+
+/-- the hypothesis is satisfied by the token lists of the five repaired defects and by ordinary
+array formulas (non-vacuity of `eval_no_panic` on array constants) -/
+theorem nestedA_witnesses :
+    nestedA [] [] witnessArray = true ∧ nestedA [] [] witnessOpFn = true ∧
+    nestedA [] [] witnessArraySep = true ∧ nestedA [] [] witnessArrayParenFn = true ∧
+    nestedA [] [] witnessNestedArray = true := by decide
+
+/-- **Open finding (code and model agree).**  `nestedA` differs from plain bracket nesting in one
+rule: an ARRAYROW start must sit directly inside an array constant.  The rule is necessary — the
+list below violates it and panics — and, contrary to what was assumed until the harness checked
+the discipline on the efp tokens of every generated formula, efp DOES emit such lists: it writes
+an ARRAYROW start for every `;` and for a function literally named ARRAYROW, inside an array
+constant or not.  `SUM((ARRAYROW(1)))` (the list below) and `SUM((SUM(;1)))` panic on the real
+code: the evaluator ignores the ARRAYROW start but lets its Function Stop close the enclosing
+function.  Candidate two-line repair: when `array()` is nil, treat the ARRAYROW start as the
+start of an (unknown) function. -/
+theorem finding_model_arrayrow_without_array_rejected :
+    nestedA [] [] [fstart "SUM", ⟨"", .subexpr, .start⟩, fstart "ARRAYROW", fstop, ⟨"", .subexpr, .stop⟩] = false ∧
     evalTokens semU [fstart "SUM", ⟨"", .subexpr, .start⟩, fstart "ARRAYROW", fstop, ⟨"", .subexpr, .stop⟩] = .panic := by
   decide
 
